@@ -130,7 +130,7 @@ def cases(tier, seed):
             extra.append(dict(c, resize=c["placement"].index(2)))
     # blocks of very different sizes (counts only): a long block followed by a short one and the other way round,
     # along x and along y
-    for c in out[4 :: (15 if q else 3)]:
+    for c in out[4 :: (15 if q else 9)]:
         for sp in SPACINGS:
             extra.append(dict(c, spacing=sp))
     out += extra
